@@ -449,6 +449,10 @@ func checkC20(c *Ctx) {
 				must(os.WriteFile(filepath.Join(d, "init.json"), []byte(c20SpecContent(fmt.Sprintf("init%d", i))), 0o644))
 			}
 		}
+		// a path that exists in a way but cannot be a directory: below a regular file
+		// (watching and scanning it fail with ENOTDIR, not ENOENT)
+		must(os.WriteFile(filepath.Join(root, "afile"), []byte("x"), 0o644))
+		pool = append(pool, filepath.Join(root, "afile", "sub"))
 		pickDirs := func() []string {
 			dirs := []string{anchor}
 			for _, i := range r.Perm(len(pool))[:r.Intn(len(pool)+1)] {
